@@ -116,6 +116,27 @@ def check_run(run):
         stats['misrecognised'] = len(by.get(C['MISREC'], []))
         stats['taken'] = len(by.get(C['TAKEN'], []))
         stats['advanced_over'] = len(by.get(C['ADVANCE'], []))
+    # the buffers must reach the writer's FIFO in the order in which their turn was decided: pair every hand-off decision
+    # (REORDER) with the next WRITE (= push to the writer's queue, recorded under the writer's own lock) of the same thread
+    pend = {}
+    pairs = []
+    ambiguous = False
+    for e in run:
+        if e[2] == C['REORDER']:
+            if e[1] in pend:
+                ambiguous = True        # two decisions without a push in between: not the shape this oracle understands
+            pend[e[1]] = e
+        elif e[2] == C['WRITE'] and e[1] in pend:
+            pairs.append((pend.pop(e[1]), e))
+    stats['handoff_push_pairs'] = 0 if ambiguous else len(pairs)
+    if not ambiguous:
+        pairs.sort(key=lambda pr: pr[0][0])         # in decision order
+        for i in range(1, len(pairs)):
+            if pairs[i - 1][1][0] > pairs[i][1][0]:
+                problems.append('buffer %s was pushed to the writer after its successor %s (decision order %d < %d, push order %d > %d)'
+                                % ((pairs[i - 1][0][3], pairs[i - 1][0][4]), (pairs[i][0][3], pairs[i][0][4]),
+                                   pairs[i - 1][0][0], pairs[i][0][0], pairs[i - 1][1][0], pairs[i][1][0]))
+                break
     nw = len(by.get(C['WRITE'], [])); nwd = len(by.get(C['WRITTEN'], []))
     if complete:
         if nw != len(pos):
